@@ -692,24 +692,26 @@ def build_table(gen, states, by_name, root_ids, findings):
     }
     # the mutable paths the property names (a grammar, not read off the table), minus those covered by open over-const findings
     spec = gen_const_lean.mutable_spec_paths(tab)
-    keep, known_over = [], []
+    keep, known_over, bad = [], [], []
     step = {(s, o): t for s, o, t in edges}
     for s, p, lab in spec:
+        cur, why = s, None
+        for k, o in enumerate(p):
+            cur = step.get((cur, opid[o]))
+            if cur is None:
+                why = f"`{o}` (step {k}) is not available"
+                break
+        if cur is not None and not facts["elem_mut"][cur]:
+            why = "ends in " + states[cur]["name"]
+        if why is None:
+            keep.append([s, p, lab])             # writable: the theorem covers it, whatever the findings say
+            continue
         hit = [f for f in findings if path_matches(f, lab, p)]
         if hit:
             known_over.append([s, p, lab, hit[0]["key"]])
         else:
-            keep.append([s, p, lab])
-    bad = []
-    for s, p, lab in keep:
-        cur = s
-        for k, o in enumerate(p):
-            cur = step.get((cur, opid[o]))
-            if cur is None:
-                bad.append({"root": s, "ops": p, "label": lab, "why": f"`{o}` (step {k}) is not available", "state": None})
-                break
-        if cur is not None and not facts["elem_mut"][cur]:
-            bad.append({"root": s, "ops": p, "label": lab, "why": "ends in " + states[cur]["name"], "state": cur})
+            keep.append([s, p, lab])             # stays in the obligation: the Lean theorem fails on it
+            bad.append({"root": s, "ops": p, "label": lab, "why": why, "state": cur})
     tab["mutable_spec_paths"] = keep
     tab["known_overconst_paths"] = known_over
     tab["mutable_paths_not_writable"] = bad
